@@ -254,6 +254,9 @@ type snapshot struct {
 
 func snap(t tensor.Tensor) snapshot {
 	s := snapshot{shape: cloneInts(t.Shape()), strides: cloneInts(t.Strides()), dtype: t.Dtype().String(), scalar: t.IsScalar()}
+	if t.Shape().TotalSize() == 0 && !t.IsScalar() {
+		return s // an empty tensor: gorgonia's Data() panics on a zero-length backing
+	}
 	d := reflect.ValueOf(t.Data())
 	if d.Kind() == reflect.Slice {
 		s.raw = make([]uint64, d.Len())
